@@ -14,20 +14,17 @@ From PV Require Model.Process.
 Import Model.Process.
 Local Open Scope R_scope.
 
+(* [Shared v (f args)]: the variable v stands for this call of a stub function (see r_share below) *)
+Definition Shared {A} (v x : A) : Prop := v = x.
+
 Lemma r_fst_pair {A B} (a : A) (b : B) : fst (a, b) = a.  Proof. reflexivity. Qed.
 Lemma r_snd_pair {A B} (a : A) (b : B) : snd (a, b) = b.  Proof. reflexivity. Qed.
 (* fst / snd stay folded on a stuck argument (fst (Jf args)) and are reduced on an explicit pair *)
-Ltac r_pairs :=
-  repeat match goal with
-  | |- context [fst (?a, ?b)] => rewrite (r_fst_pair a b)
-  | |- context [snd (?a, ?b)] => rewrite (r_snd_pair a b)
-  | H : context [fst (?a, ?b)] |- _ => rewrite (r_fst_pair a b) in H
-  | H : context [snd (?a, ?b)] |- _ => rewrite (r_snd_pair a b) in H
-  end.
+Ltac r_pairs := cbn [fst snd] in *.
 
 Ltac r_norm :=
   cbv beta iota zeta delta -[R Rplus Rminus Rmult Rdiv Rinv Ropp Rabs exp ln Rpower pow Rlit Rleb Rltb Reqb IZR
-                             Rmax Rmin pf_call INR fst snd nmax] in *;
+                             Rmax Rmin pf_call INR fst snd nmax Shared] in *;
   r_pairs.
 
 (* literals: Rlit m e  ~>  IZR m, IZR m * 10^k, IZR m / 10^k *)
@@ -76,7 +73,13 @@ Ltac r_eq fuel :=
   | match goal with
     | |- ?f ?a = ?g ?b => apply r_app_eq; r_eq fuel
     end
-  | lazymatch goal with |- @eq R _ _ => idtac end;
+  | lazymatch goal with
+    | |- @eq R _ _ => idtac
+    | |- @eq ?T ?x ?y =>
+        (* a record field declared with type [num N]: R only up to conversion *)
+        let T' := eval cbv beta iota delta [num ROps] in T in
+        lazymatch T' with R => change (@eq R x y) end
+    end;
     first
     [ r_ring
     | lazymatch fuel with
@@ -109,6 +112,54 @@ Ltac r_eq fuel :=
 
 Ltac r_close fuel := r_eq 3%nat.
 
+(* Sharing: calls of the abstract stub functions (universally quantified variables: the solver, the membrane, the
+   fitted functions ...) are generalised bottom-up.  An innermost call [f r] becomes a variable; every other innermost
+   call [f r'] of the same stub whose argument is equal to r modulo the field identities is replaced by that variable
+   (in the goal and in the recorded path conditions); then the definition is forgotten.  Terms that mention the
+   results of earlier steps many times (process loops) shrink from exponential to linear size. *)
+Ltac r_share_call f call args :=
+  lazymatch args with context [f] => fail | _ => idtac end;
+  lazymatch type of call with _ -> _ => fail | _ => idtac end;
+  first
+  [ match goal with
+    | Hs : Shared ?v ?old |- _ =>
+        lazymatch old with context [f] => idtac | _ => fail end;
+        replace call with v in * by (unfold Shared in Hs; rewrite Hs; timeout 25 (r_eq 1%nat))
+    end
+  | let v := fresh "s" in
+    let Hs := fresh "Hs" in
+    set (v := call) in *;
+    assert (Hs : Shared v call) by reflexivity;
+    clearbody v ].
+
+Ltac r_share_one :=
+  match goal with
+  | |- context [?f ?r] => is_var f; r_share_call f (f r) r
+  | |- context [?f ?a ?b] => is_var f; r_share_call f (f a b) (a, b)
+  | |- context [pf_call ?n ?fit ?x ?t] => r_share_call pf_call (pf_call n fit x t) (fit, x, t)
+  end.
+
+(* two shared variables whose calls have become equal (a clamp or validator inside the argument was decided meanwhile) *)
+Ltac r_merge :=
+  repeat match goal with
+  | H1 : Shared ?v1 ?c1, H2 : Shared ?v2 ?c2 |- _ =>
+      tryif constr_eq v1 v2 then fail else idtac;
+      let E := fresh "E" in
+      assert (E : v2 = v1) by (unfold Shared in H1, H2; rewrite H1, H2; timeout 25 (r_eq 1%nat));
+      clear H2; subst v2
+  end.
+
+(* a comparison decided by a recorded path condition is decided inside the remembered calls as well *)
+Ltac r_decide_shared :=
+  repeat match goal with
+  | H : ?c = _, Hs : Shared _ ?t |- _ =>
+      lazymatch type of c with bool => idtac | _ => fail end;
+      lazymatch t with context [c] => rewrite H in Hs; cbv beta iota in Hs end
+  end.
+
+Ltac r_share := r_decide_shared; r_merge; repeat r_share_one.
+
+
 (* one data-dependent test of the model, discharged by a recorded path condition whose operands are
    ring-equal to the model's operands *)
 Ltac r_not_used c :=
@@ -118,6 +169,9 @@ Ltac r_consume H c c' :=
   r_not_used c';
   let E := fresh "E" in
   assert (E : c = c') by (timeout 40 (r_eq 1%nat));
+  repeat match goal with
+         | Hs : Shared _ ?t |- _ => lazymatch t with context [c] => rewrite E in Hs; rewrite H in Hs end
+         end;
   rewrite E; clear E; rewrite H; mark_used c'.
 
 Ltac r_step_if :=
@@ -135,5 +189,5 @@ Ltac r_rewrite_hyps :=
   repeat match goal with H : @eq (list _) _ _ |- _ => rewrite H in * ; clear H end.
 
 Ltac bridge_R :=
-  r_rewrite_hyps; r_norm; r_rewrite_hyps; r_lits;
-  repeat (r_step_if; r_norm; r_lits); all_pcs_used; r_close 12%nat.
+  r_rewrite_hyps; r_norm; r_rewrite_hyps; r_lits; r_share;
+  repeat (r_step_if; r_norm; r_lits; r_share); all_pcs_used; r_close 12%nat.
